@@ -1299,11 +1299,11 @@ def gen_bit_stream_cipher(g, tier, c):
         g.add(c, H_NULL, "%s/boundary" % name, dir=1 + j % 2, key=g.rnd(16), iv=g.rnd(ivl), msg=g.rnd(n + 16), coff=8 * (j % 9), clen=8 * n)
 
 
-def gen_cbcs(g, tier, keys=(16,), stream="CBCS_1_9"):
+def gen_cbcs(g, tier, keys=(16,), stream="CBCS_1_9", valid=True):
     for kl in keys:
         for d in (1, 2):
             for j, n in enumerate(block_lengths(16, 1057) + [160 * 10, 160 * 10 + 16, 160 * 26, 4096, 4112]):
-                add_cipher_item(g, 17, kl, 16, d, n, "%s/dense" % stream, coff=16 * (j % 2) if j % 5 == 2 else 0)
+                add_cipher_item(g, 17, kl, 16, d, n, "%s/dense" % stream, coff=16 * (j % 2) if j % 5 == 2 else 0, valid=valid)
 
 
 CHAIN_HASHES = [(1, 20), (3, 32), (12, 16), (5, 64), (6, 12), (7, 16), (2, 14), (4, 24), (48, 32)]
@@ -1366,7 +1366,9 @@ def gen_c01(g, tier):
     gen_bit_stream_cipher(g, tier, 15)
     gen_bit_stream_cipher(g, tier, 16)
     gen_cbcs(g, tier, (16,))
-    gen_cbcs(g, tier, (24, 32), stream="CBCS_1_9-192-256")
+    # README: only AES128-CBCS is offered; the job check nevertheless accepts 24/32-byte keys.  Rejecting them is
+    # fine (valid=False), completing them with anything but AES-192/256 CBCS is not.
+    gen_cbcs(g, tier, (24, 32), stream="CBCS_1_9-192-256", valid=False)
     gen_chained(g, tier, (1, 2, 12, 26, 4, 7, 10, 8, 13, 14, 15, 16, 18, 21, 24, 25, 27), CHAIN_HASHES, "chained/cipher-major")
 
 
@@ -1597,13 +1599,19 @@ def gen_docsis_crc(g, tier):
                     if clen != 0 and clen + 8 > hlen:
                         continue            # is_job_invalid: cipher length + 8 <= hash length
                     msg = g.rnd(hoff + hlen + 4 + j % 3)
-                    g.add(4, 21, "DOCSIS+CRC32/std", dir=1, order=2, key=special_key(g, kl, g.n), iv=g.rnd(16), msg=msg, coff=coff,
+                    # a ciphered range that lies inside the 4 CRC bytes is accepted but makes no sense for DOCSIS
+                    st = "DOCSIS+CRC32/std" if (clen == 0 or clen > 4) else "DOCSIS+CRC32/cipher-within-crc"
+                    g.add(4, 21, st, dir=1, order=2, key=special_key(g, kl, g.n), iv=g.rnd(16), msg=msg, coff=coff,
                           clen=clen, hoff=hoff, hlen=hlen, tag=4, inplace=1)
                     j += 1
                 j += 1
         # CRC only (nothing ciphered)
         for hlen in (14, 15, 16, 31, 60, 64, 65, 127, 128, 129, 1500):
             g.add(4, 21, "DOCSIS+CRC32/crc-only", dir=1, order=2, key=g.rnd(kl), iv=g.rnd(16), msg=g.rnd(hlen + 4), coff=12, clen=0,
+                  hoff=0, hlen=hlen, tag=4, inplace=1)
+        # hash length below 14: no CRC is inserted, the frame is still ciphered, the tag bytes are unspecified
+        for hlen in (0, 1, 13):
+            g.add(4, 21, "DOCSIS+CRC32/short-hash", dir=1, order=2, key=g.rnd(kl), iv=g.rnd(16), msg=g.rnd(40), coff=12, clen=0,
                   hoff=0, hlen=hlen, tag=4, inplace=1)
         # accepted geometry outside the standard one (cipher range does not end with the CRC)
         for hlen in (40, 64, 100, 256):
